@@ -95,7 +95,7 @@ func c17state(w *verifWorld, needEv bool) (IClaims, *Evidence, []byte, bool) {
 		if g1 == nil {
 			return nil, nil, nil, false // the per-buffer decode script yields profile-1 claims
 		}
-		verifStub.byBuf = append(verifStub.byBuf, verifBufClaims{buf: s.message.Payload, g1: g1})
+		verifScript(s.message.Payload, g1)
 		verifCose.toks = append(verifCose.toks, verifTokRec{bytes: tbuf, msg: verifCloneMsg(s.message)})
 	}
 	e, derr := DecodeEvidenceFromCOSE(tbuf)
